@@ -28,6 +28,7 @@ META["claim"] += " " + 'Round 3b: WebSocketApp reconnect handshakes judged again
 META["claim"] += " " + 'Round 4: transport / TLS / receive-side options next to the request options (sslopt incl. server_hostname, sockopt, enable_multithread, fire_cont_frame, redirect_limit, HTTP proxy with and without credentials): the request - tunnelled when proxied - is unchanged by them.'
 META["claim"] += " " + 'Round 5: the URL reached through a redirect from a URL of the same / of the other scheme; a default Origin, when one is sent, names the requested URL; dict headers with an empty-string value.'
 META["claim"] += " " + 'Rounds 6-7: repeated custom header lines; tabs and quoted blanks in field values; requests of 30-40 KiB made of many headers with two- and three-byte characters.'
+META["claim"] += " " + 'Round 8: IPv6 literal with a zone identifier as URL host; header names and values of a str subclass with a rendering of its own.'
 
 try:
     from websockets.server import ServerProtocol as _WsServer
